@@ -529,6 +529,8 @@ class AlignmentRotation(HomogFamilyAlignment, Rotation):
         Rotation.__init__(
             self, optimal_rotation_matrix(source, target, allow_mirror=allow_mirror)
         )
+        # Rotation.__init__ goes through our syncing setter - restore the target
+        self._target = target
         self.allow_mirror = allow_mirror
 
     def set_rotation_matrix(self, value, skip_checks=False):
